@@ -376,7 +376,7 @@ def make_solver_cases(tier, seed):
             flags.append((True, False))
         if spd:
             flags += [(False, True), (True, True)]
-        for fmt in ("dense", "csr", "csc"):
+        for fmt in ("dense", "denseF", "csr", "csc"):
             for (fs, fp) in flags:
                 cases.append({"part": "make_solver", "matrix": M.tolist(), "fmt": fmt, "symmetric": fs, "spd": fp,
                               "forms": list(S.SOLVER_FORMS), "seed": seed})
@@ -399,6 +399,12 @@ def kron_solver_cases(tier, seed):
         for fs in itertools.product(a, repeat=d):
             cases.append({"part": "kron_solver", "matrices": [KS_MATS[i] for i, _ in fs], "fmts": [f for _, f in fs],
                           "forms": list(S.SOLVER_FORMS), "seed": seed})
+    # column-major dense factors, equal factors passed as one object
+    aF = [(i, "denseF") for i in range(len(KS_MATS))]
+    for d in (1, 2, 3):
+        for fs in itertools.product(aF if d < 3 else [aF[k] for k in (3, 4, 6)], repeat=d):
+            cases.append({"part": "kron_solver", "matrices": [KS_MATS[i] for i, _ in fs], "fmts": [f for _, f in fs],
+                          "forms": ["v", "IC"], "seed": seed, "share": True})
     return cases
 
 
